@@ -8,6 +8,20 @@ for l in open('/verif/properties.jsonl'):
     if p['id'] == pid:
         break
 d = "/tmp/seed-%s" % pid
+import glob, os
+studied = []
+for mp in sorted(glob.glob('/verif/seeded/*/meta.json')):
+    name = os.path.basename(os.path.dirname(mp))
+    try:
+        m = json.load(open(mp))
+    except Exception:
+        continue
+    if name.startswith(pid) or (len(sys.argv) > 3 and any(name.startswith(x) for x in sys.argv[3].split(','))):
+        studied.append("- %s: %s" % (", ".join(m.get('files_changed') or []), (m.get('summary') or '').replace('\n', ' ')[:330]))
+AVOID = ""
+if studied:
+    AVOID = ("\n\nALREADY STUDIED - do NOT submit any of these changes again, nor a close variant of one (same function, same slip); "
+             "find a DIFFERENT function / mechanism / kind of mistake:\n" + "\n".join(studied) + "\n")
 print(f"""You are helping to evaluate a verification effort for the Rust glob library `wax` (olson-sean-k/wax 0.6.0). You have your OWN scratch git worktree of the library at {d} (a detached checkout; work ONLY inside that directory; never touch /repo or /verif, and do not read anything under /verif). The sandbox has NO network: always pass `--offline` to cargo and use a private target directory: `CARGO_TARGET_DIR={d}-target`.
 
 Here is a semantic property that the library is supposed to satisfy:
@@ -26,7 +40,7 @@ YOUR TASK: produce ONE realistic change to the library's source (under {d}/src) 
 
 Also write a DEMONSTRATION: a small Rust program (e.g. {d}/examples/seed_demo.rs using only the public API of `wax`, creating any directory trees it needs under std::env::temp_dir()) that FAILS (panics / non-zero exit) with your change applied and PASSES on the unchanged code. Verify both: run it with the change, then remove the change (`git diff -- src > /tmp/seed-{pid}.patch; git checkout -- src`), run it again, then re-apply (`git apply /tmp/seed-{pid}.patch`).
 
-Read the source to find a good spot (start with {hint}). Do not edit tests. Do not add dependencies.
+Read the source to find a good spot (start with {hint}). Do not edit tests. Do not add dependencies.{AVOID}
 
 DELIVERABLES (all inside {d}/SEED/):
 1. patch.diff - `git diff -- src` of your change only (must apply with `git apply` on the clean checkout).
